@@ -1,6 +1,7 @@
 import O4.Lemmas.ScrambleSuit
 import O4.Lemmas.ScrambleSuitPackets
 import O4.Generated.Facts.Scramblesuit
+import O4.Generated.Facts.Probdist
 /-!
 # C15 — ScrambleSuit client: handshake, stream and tickets work for every segmentation
 
@@ -571,5 +572,41 @@ theorem store_ops_run_under_mutex :
     O4.Facts.Scramblesuit.ssTicketStore_storeTicket_locked = true ∧
     O4.Facts.Scramblesuit.ssTicketStore_getTicket_prelock = [] ∧
     O4.Facts.Scramblesuit.ssTicketStore_storeTicket_prelock = [] := by decide
+
+/-! ## the handshake timeout, the padding sampler under concurrency -/
+
+theorem armedAfter_append_clear (t : List ConnEv) (a : Bool) : armedAfter (t ++ [.clear]) a = false := by
+  induction t generalizing a with
+  | nil => rfl
+  | cons e r ih => cases e <;> simp [armedAfter, ih]
+
+/-- **No handshake deadline survives a successful Dial — ticket handshake and UniformDH alike.**
+The timeout is armed before the first I/O and the last deadline operation of a successful
+`newScrambleSuitClientConn` is the clear, however many reads the response took. -/
+theorem deadline_cleared_after_dial (ticket : Bool) (reads : Nat) :
+    (dialTrace ticket reads).head? = some .arm ∧ armedAfter (dialTrace ticket reads) false = false := by
+  refine ⟨rfl, ?_⟩
+  unfold dialTrace
+  exact armedAfter_append_clear _ _
+
+example : dialTrace true 0 = [.arm, .write, .clear] ∧ dialTrace false 2 = [.arm, .write, .read, .read, .clear] := by
+  decide
+
+/-- **The padding sampler is reseeded by the reader while the writer samples.** A `pktPrngSeed`
+packet makes `readPackets` call `lenDist.Reset(seed)` while another goroutine may be inside
+`Write` → `lenDist.Sample()`. `connWrite`/`write_exact` treat the sampled length as one value in
+`[0, maxSegmentLength]`; that is only what the code does if `Sample` and `Reset` hold the
+distribution's mutex for everything that touches its tables (go/ast facts regenerated from
+common/probdist on every run: both are bracketed by `Lock(); defer Unlock()`, neither touches a
+field before taking the lock, and every field `Sample` reads is one `Reset` writes under it).
+Goroutine scheduling itself is outside the theorem; the harness's concurrent reseed/Write family
+samples it. -/
+theorem padding_sampler_reseed_under_mutex :
+    O4.Facts.Probdist.WeightedDist_Sample_locked = true ∧
+    O4.Facts.Probdist.WeightedDist_Sample_prelock = [] ∧
+    O4.Facts.Probdist.WeightedDist_Reset_locked = true ∧
+    O4.Facts.Probdist.WeightedDist_Reset_prelock = [] ∧
+    O4.Facts.Probdist.WeightedDist_Sample_fields ⊆ O4.Facts.Probdist.WeightedDist_Reset_fields := by
+  decide
 
 end C15
